@@ -21,6 +21,7 @@ package main
 
 import (
 	"fmt"
+	"go/constant"
 	"go/token"
 	"go/types"
 	"os"
@@ -240,6 +241,7 @@ func checkC13(ctx *Ctx, r *Report, tier string) {
 	}
 
 	ruleLoaderStartsAtByteZero(ctx, r)
+	ruleTextLoaderSplitsOnAnyWhitespace(ctx, r)
 
 	// S4 writers
 	type recTerms map[string]*Term
@@ -970,4 +972,54 @@ func ruleLoaderStartsAtByteZero(ctx *Ctx, r *Report) {
 	}
 	r.check("S10", "LoadSTL|loaders-start-at-byte-0", fn.Pos(), bad == "", fmt.Sprintf("%d reads of the opened file, %d loader calls;%s", len(reads), nLoaders, bad))
 	r.floor("S10", 1)
+}
+
+// ruleTextLoaderSplitsOnAnyWhitespace (S11): ASCII STL separates tokens by any white space -
+// files are written with blanks, tabs or both. The loader therefore tokenises with
+// strings.Fields and decides on the fields; a test against a literal that spells out one
+// white-space character (TrimLeft(line, " "), HasPrefix(x, "vertex "), Split(line, " ")) accepts
+// one layout and silently drops the vertex lines of the others. Decided over loadSTLAscii and
+// the module functions it calls: the loop body tokenises with strings.Fields, and no call of
+// package strings takes a constant argument containing a white-space character.
+func ruleTextLoaderSplitsOnAnyWhitespace(ctx *Ctx, r *Report) {
+	root := ctx.ssaFunc("render", "loadSTLAscii")
+	if root == nil {
+		r.undecided("S11", "loadSTLAscii", 0, "not found")
+		return
+	}
+	e := newFxEngine(ctx)
+	scope := reachFrom(e, []*ssa.Function{root}, false)
+	usesFields := false
+	bad := ""
+	n := 0
+	for fn := range scope {
+		if !inModule(fn) || len(fn.Blocks) == 0 {
+			continue
+		}
+		allInstrs(fn, func(_ *ssa.BasicBlock, ins ssa.Instruction) {
+			c, ok := ins.(*ssa.Call)
+			if !ok {
+				return
+			}
+			g := c.Call.StaticCallee()
+			if g == nil || g.Pkg == nil || g.Pkg.Pkg.Path() != "strings" {
+				return
+			}
+			n++
+			if g.Name() == "Fields" {
+				usesFields = true
+			}
+			for _, a := range c.Call.Args {
+				k, ok := a.(*ssa.Const)
+				if !ok || k.Value == nil || k.Value.Kind() != constant.String {
+					continue
+				}
+				if strings.ContainsAny(constant.StringVal(k.Value), " \t") {
+					bad += fmt.Sprintf(" strings.%s(…, %s) at %s spells out one white-space character;", g.Name(), k.Value.ExactString(), ctx.pos(c.Pos()))
+				}
+			}
+		})
+	}
+	r.check("S11", "loadSTLAscii|tokens-are-separated-by-any-white-space", root.Pos(), usesFields && bad == "", fmt.Sprintf("%d calls of package strings; tokenised with strings.Fields: %v;%s", n, usesFields, bad))
+	r.floor("S11", 1)
 }
